@@ -36,7 +36,10 @@ ROTSETS = {
     "K3-range": ((0, 0), (0, 0), (25, 25)),
     "K5-range": ((0, 0), (40, 20), (0, 0)),
     "K9-range": ((25, 25), (0, 0), (25, 25)),
+    # 125 rotations: with 3 templates the candidate index k*T+j passes 255 (a narrow integer label would wrap)
+    "K125-range": ((10, 5), (10, 5), (10, 5)),
 }
+BIG_PAIRS = [[1, 40], [0, 85], [1, 85], [2, 124]]
 BLOBSETS = [
     data._BLOBS,
     [(1.0, (0.0, 0.0, 0.0), 1.2), (0.9, (-1.8, 0.7, 1.2), 1.0), (0.7, (1.0, -1.9, -0.8), 1.0), (0.5, (0.3, 1.4, -2.0), 0.9)],
@@ -58,7 +61,7 @@ def _rotations_arg(name):
 
 
 def _K(name):
-    return {"K1": 1, "K2-obj": 2, "K3-obj": 3, "K3-range": 3, "K5-range": 5, "K9-range": 9}[name]
+    return {"K1": 1, "K2-obj": 2, "K3-obj": 3, "K3-range": 3, "K5-range": 5, "K9-range": 9, "K125-range": 125}[name]
 
 
 def _rotsets(tier):
@@ -90,6 +93,10 @@ def cases(tier, seed):
                     continue
                 for model in ("ZNCC", "PCC"):
                     out.append({"kind": "loader", "T": T, "rs": rs, "model": model, "entry": entry})
+    # many candidates (T*K = 375): selected (j, k) pairs around candidate index 256 and at the end; neighbouring rotations are
+    # only 5 degrees apart, so the label and the shift are checked exactly and the rotation up to its nearest neighbours
+    for entry in ("align_multi_templates", "group(list)") if tier == "thorough" else ("align_multi_templates",):
+        out.append({"kind": "loader", "T": 3, "rs": "K125-range", "model": "ZNCC", "entry": entry, "pairs": BIG_PAIRS})
     return out
 
 
@@ -261,6 +268,9 @@ def _run_loader(case):
     pairs = [(j, k) for k in range(K) for j in range(T)]
     # interleave so that neither j nor k is monotone in the molecule index
     pairs = pairs[::2] + pairs[1::2]
+    coarse_rot = "pairs" in case
+    if coarse_rot:
+        pairs = [tuple(p) for p in case["pairs"]]
     N = len(pairs)
     tomo = np.zeros((n, n, n * N), dtype=np.float32) + 0.3
     pos = []
@@ -307,7 +317,11 @@ def _run_loader(case):
             kk = _which_rotation(q_out, quats)  # input orientation is the identity
             rv = np.array([f["align-dzrot"][r], f["align-dyrot"][r], f["align-dxrot"][r]])
             rv_true = Rotation.from_quat(quats[k]).as_rotvec()
-            if kk != k and not np.allclose(Rotation.from_quat(q_out).as_matrix(), Rotation.from_quat(quats[k]).as_matrix(), atol=1e-5):
+            if coarse_rot:
+                ang = (Rotation.from_quat(q_out).inv() * Rotation.from_quat(quats[k])).magnitude()
+                if ang > np.deg2rad(5.0 * np.sqrt(3) + 0.1):
+                    viol.append((sig("rotation"), f"molecule {i} planted (template {j}, rotation {k}) of T={T}, K={K}: output orientation is {np.rad2deg(ang):.1f} deg away"))
+            elif kk != k and not np.allclose(Rotation.from_quat(q_out).as_matrix(), Rotation.from_quat(quats[k]).as_matrix(), atol=1e-5):
                 viol.append((sig("rotation"), f"molecule {i} planted (template {j}, rotation {k}) of T={T}, K={K}: output orientation is searched rotation {kk}"))
             elif np.abs(rv - rv_true).max() > 2e-4:
                 viol.append((sig("rotation-feature"), f"molecule {i}: rotation features {rv.tolist()} but applied rotation vector {np.round(rv_true, 5).tolist()}"))
